@@ -1,5 +1,6 @@
 import Slu.Proto
 import Slu.Model.Ilu
+import Slu.Model.Order
 import Slu.Drv.Kernels
 import Slu.Drv.IluEvents
 -- HANDLER ilu => Slu.Drv.Ilu.handle
@@ -112,6 +113,13 @@ def handleG (o : Ops K) (c : Case) : Res := Id.run do
   if (c.int "perm_c").any (· < 0) ∨ !isPerm n permc then return Res.propFalse s!"{call}: perm_c is not a permutation of 0..n-1" tags
   if (c.int "perm_r").any (· < 0) ∨ !isPerm n permr then return Res.propFalse s!"{call}: perm_r is not a permutation of 0..n-1" tags
   if c.pNat "havefac" ≠ 1 then return Res.propFalse s!"{call}: no factors returned" tags
+  -- order: (C10) the elimination tree handed back is the column elimination tree of A*Pc for the perm_c handed back - with
+  -- or without SymmetricMode (ilu_heap_relax_snode relabels the caller's tree in place and must restore it); the column
+  -- elimination tree does not depend on the row order, so the arrays of A as they went in serve (MC64 permutes rows only)
+  let pat : Slu.Order.Pat := { m := n, n := n, colptr := c.nat "A.colptr", rowind := c.nat "A.rowind" }
+  let ct := Slu.Order.coletree n n (Slu.Order.permView pat permc).col
+  if (c.int "etree").toList ≠ ct.toList.map Int.ofNat then
+    return Res.propFalse s!"{call}: order: the elimination tree returned is not the column elimination tree of A*Pc: returned {(c.int "etree").toList} expected {ct.toList}" tags
   -- values
   let some _ := o.dec dbl (c.raw "L.lusup") | return Res.propFalse s!"{call}: non-finite value stored in L (or in U's diagonal blocks)" tags
   let some _ := o.dec dbl (c.raw "U.val") | return Res.propFalse s!"{call}: non-finite value stored in U" tags
